@@ -3,7 +3,7 @@
 `computation(text)` removes from an emitted program everything the display adds:
   * statements that mention the canvas / the slip time-stamp dictionary (createCanvas, canvas.addActivity,
     displayCanvas, `timestamps = {}`, `if <space> in timestamps.keys(): ... else: ...`);
-  * `enumerate(...)` wrappers whose position variable `<r>_pos` is not read by what remains.
+  * `enumerate(...)` wrappers whose position variable `<r>_pos` is not read by what remains of that loop's body.
 For every specification  computation(text with spacetime) == computation(text without spacetime)  must hold: then, on
 EVERY input, the two programs perform the same tensor operations in the same order (the removed statements only read
 loop variables and call the recording API), so the computed tensors are equal.  If the equality fails the display
@@ -49,17 +49,21 @@ def _reads(tree):
 
 
 class _Unenumerate(ast.NodeTransformer):
-    def __init__(self, reads):
-        self.reads = reads
+    """drop `enumerate()` where the loop's own body does not read the position (a later Einsum of a cascade may read a
+    variable of the same name: that one is bound by its own loop)"""
 
     def visit_For(self, node):
         self.generic_visit(node)
         it = node.iter
         if isinstance(it, ast.Call) and isinstance(it.func, ast.Name) and it.func.id == "enumerate" and len(it.args) == 1 \
                 and isinstance(node.target, ast.Tuple) and len(node.target.elts) == 2 and isinstance(node.target.elts[0], ast.Name) \
-                and node.target.elts[0].id.endswith("_pos") and node.target.elts[0].id not in self.reads:
-            node.iter = it.args[0]
-            node.target = node.target.elts[1]
+                and node.target.elts[0].id.endswith("_pos"):
+            reads = set()
+            for stmt in node.body:
+                reads |= _reads(stmt)
+            if node.target.elts[0].id not in reads:
+                node.iter = it.args[0]
+                node.target = node.target.elts[1]
         return node
 
 
@@ -68,7 +72,7 @@ def computation(text):
     tree = ast.parse(text)
     tree = _Strip().visit(tree)
     ast.fix_missing_locations(tree)
-    tree = _Unenumerate(_reads(tree)).visit(tree)
+    tree = _Unenumerate().visit(tree)
     ast.fix_missing_locations(tree)
     return ast.unparse(tree)
 
